@@ -64,6 +64,13 @@ THEOREMS = [P + n for n in (
     "toDouble_negative_zero_counterexample",
     "scalarToDecimal_exact",
     "toString_roundtrip_partial",
+    "toString_roundtrip_printf_partial",
+    "all_doubles_canonical",
+    "floor_spec",
+    "ceiling_spec",
+    "round_fixed_spec",
+    "round_spec_generated",
+    "toDouble_fast_path_fixed_spec",
     "round_spec_counterexample_half_ulp",
     "round_spec_counterexample_big_odd",
     "round_spec_counterexample_negative_zero",
